@@ -32,7 +32,7 @@ RULE = ('1-D: input pixel i at loglam c0+1e-4*i; a case = (n, zero-weight bit pa
         'all patterns are enumerated for each menu combination. 2-D: (number of exposures, pixel offsets, list of bad runs '
         '(exposure, start, length), flux shape, grid); stacks whose exposures cover different ranges (exposure e shifted by e*D '
         'pixels, D in {24, 40, 100}, plus half a pixel for odd e) x bad runs x ivar shape {constant, ramp, non-monotone} x output '
-        'grid {each exposure grid, +0.3 px, wider}. preprocess: (objects, redshifts, feature position, 1-D/2-D loglam, own/given output grid). '
+        'grid {each exposure grid, +0.3 px, wider}; scaling ladder: (base case, c) for every c of a 10-step ladder. preprocess: (objects, redshifts, feature position, 1-D/2-D loglam, own/given output grid). '
         'Non-trivial = at least one good input pixel and at least one output pixel inside the input range (1-D/2-D), every '
         'preprocess case. Distinct = distinct case tuples.')
 ASSUMPTIONS = [
@@ -45,7 +45,11 @@ ASSUMPTIONS = [
     'relative of the input; float32 spline knots limit accuracy to ~1e-5) and (b) as a liveness guard only where every input '
     'pixel within 5 pixels of the output position exists and is good (ivar > 0 there, flux within 1e-4 of the analytic shape)',
     'a constant spectrum stays constant is demanded wherever the output ivar is > 0 (1e-4 relative)',
-    'scaling uses c = 4 (exact in binary floating point); outputs are compared to 1e-9 relative',
+    'scaling: c = 4 on the large pattern products (1e-9 relative) and a ladder c in {4, 2^-10, 2^10, 2^-30, 2^30, 2^-60, 1e-3, 1e2, 1e-9, '
+    '1e-17} on identity / +0.5 px / wider grids, 1-D and stacked; power-of-two scalings are compared to 1e-12 relative (observed: '
+    'bit-identical), decimal ones to 1e-8, flux with an absolute floor of 1e-14 x c x 10; a decimal step that deviates is '
+    'counted as don\'t-care (skipped) when the power of two of the same magnitude, 2^round(log2 c), reproduces the base result '
+    'exactly - then only the rounding of the factor, not the scale, separates the answers (near-singular spline fits); the power-of-two steps are checked on every case',
     'flux shapes and ivar levels keep the spline misfit far below 1 sigma so the 5-sigma rejection in iterfit never fires',
     'stacked exposures with different coverage: where exactly one exposure has data the single-spectrum clauses are applied to '
     'that exposure (non-zero ivar = linear interpolation of that exposure ivar, <= its larger neighbour); the zero rule uses '
@@ -423,6 +427,86 @@ def check_c3(case):
     return bad, lab
 
 
+# ------------------------------------------------------------------------------------------------ scaling ladder
+LADDER = ('4', '2^-10', '2^10', '2^-30', '2^30', '2^-60', '1e-3', '1e2', '1e-9', '1e-17')
+EPS32 = float(np.finfo(np.float32).eps)
+
+
+def cval(lab):
+    return 2.0 ** int(lab[2:]) if lab.startswith('2^') else float(lab)
+
+
+def _sc_inputs(case):
+    """(loglam, flux, ivar, output k list) of the unscaled base case."""
+    if case['kind'] == '1d':
+        n = case['n']
+        kin = np.arange(n, dtype=float)
+        return lam(kin), fluxf(case['flux'], kin), ivar_in(case['ivar'], n, case['zeros']), grid_k(case['grid'], n)
+    nexp, npx = case['nexp'], NPIX2
+    offs = [0.5 * (e % 2) if case['off'] == 'alt' else 0.0 for e in range(nexp)]
+    kk = np.arange(npx, dtype=float)
+    K = np.array([kk + o for o in offs])
+    I = np.array([ivar3(case['ivar'], e, npx) for e in range(nexp)])
+    for e, s0, ln in case['runs']:
+        I[e, s0:s0 + ln] = 0.0
+    gk = [float(i) for i in (range(npx) if case['grid'] == 'same' else range(-3, npx + 3))]
+    return lam(K), fluxf(case['flux'], K), I, gk
+
+
+def check_sc(case, cache=None):
+    """flux*c, ivar/c^2  ->  outputs*c, /c^2 for a ladder of c (powers of two and decimal)."""
+    ensure_maskbits()
+    from pydl.pydlspec2d.spec2d import combine1fiber
+    E = 'combine1fiber' if case['kind'] == '1d' else 'combine1fiber2d'
+    ll, fl, iv, gk = _sc_inputs(case)
+    c = cval(case['c'])
+    pow2 = case['c'].startswith('2^') or case['c'] == '4'
+    rtol = 1e-12 if pow2 else 1e-8
+    bkey = tuple(sorted((k, repr(v)) for k, v in case.items() if k != 'c'))
+    try:
+        if cache is not None and bkey in cache:
+            nf, ni, _ = cache[bkey]
+        else:
+            nf, ni = combine1fiber(ll, fl.copy(), lam(gk), objivar=iv.copy(), aesthetics=case['aes'])
+            nf, ni = np.asarray(nf, dtype=float), np.asarray(ni, dtype=float)
+        if cache is not None:
+            cache.clear()
+            cache[bkey] = (nf, ni, None)
+        sf, si = combine1fiber(ll, fl * c, lam(gk), objivar=iv / c ** 2, aesthetics=case['aes'])
+    except Exception as e:
+        return [(exc_sig(E, e, False) + ':scaled-input', repr(e)[:300])], 'raises-' + type(e).__name__
+    bad = []
+    if not basic_checks(E, sf, si, len(gk), case['aes'], bad):
+        return bad, 'malformed'
+    sf, si = np.asarray(sf, dtype=float), np.asarray(si, dtype=float)
+    ei = ni / c ** 2
+    pos = ei[ei > 0]
+    trig = ':ivar-below-float32-eps' if pos.size and pos.min() < EPS32 else ''
+    fscale = c * 10.0
+    if not np.all(np.abs(sf - c * nf) <= rtol * np.abs(c * nf) + 1e-14 * fscale):
+        j = int(np.argmax(np.abs(sf - c * nf)))
+        bad.append((E + ':scaling:flux' + trig, 'c=%s: pixel %d flux(c f, ivar/c^2)/c = %r, flux(f, ivar) = %r' % (case['c'], j, sf[j] / c, nf[j])))
+    if not np.all(np.abs(si - ei) <= rtol * ei):
+        j = int(np.argmax(np.abs(si - ei) / (ei + (ei == 0))))
+        bad.append((E + ':scaling:ivar' + trig, 'c=%s: pixel %d ivar(c f, ivar/c^2)*c^2 = %r, ivar(f, ivar) = %r' % (case['c'], j, si[j] * c ** 2, ni[j])))
+    if bad and not pow2:
+        # Is the deviation caused by the magnitude (a scale-dependent code path) or by the rounding of the decimal factor?
+        # The nearest power of two has the same magnitude but multiplies exactly: if it reproduces the base result, only
+        # round-off separates the two answers (near-singular spline fit, Cholesky fall-back decided by the last bit) and
+        # the case is numerically indeterminate - don't-care, not a verdict.
+        c2 = 2.0 ** round(math.log2(c))
+        try:
+            qf, qi = combine1fiber(ll, fl * c2, lam(gk), objivar=iv / c2 ** 2, aesthetics=case['aes'])
+            qf, qi = np.asarray(qf, dtype=float), np.asarray(qi, dtype=float)
+            same = (qf.shape == nf.shape and np.all(np.abs(qf - c2 * nf) <= 1e-12 * np.abs(c2 * nf) + 1e-14 * c2 * 10.0)
+                    and np.all(np.abs(qi - ni / c2 ** 2) <= 1e-12 * ni / c2 ** 2))
+        except Exception:
+            same = False
+        if same:
+            return [], 'skip:decimal scaling deviates but the power of two of the same magnitude is exact (round-off-decided fit)'
+    return bad, 'ladder:%s:%s:%s' % (case['kind'], 'pow2' if pow2 else 'dec', 'w0' if not pos.size else 'w+')
+
+
 # ------------------------------------------------------------------------------------------------ preprocess_spectra
 NPIXP = 60
 
@@ -479,7 +563,7 @@ def check_pp(case):
     return bad, 'obj%d:%s:%s' % (nobj, 'shifted' if any(z) else 'z0', 'given-grid' if case.get('newll') else 'own-grid')
 
 
-CHECKS = {'c1': check_c1, 'c2': check_c2, 'c3': check_c3, 'pp': check_pp}
+CHECKS = {'c1': check_c1, 'c2': check_c2, 'c3': check_c3, 'sc': check_sc, 'pp': check_pp}
 
 
 def check_case(case):
@@ -542,6 +626,19 @@ def tasks(tier):
                     t.append({'f': 'c2s', 'nexp': nexp, 'off': off, 'e': e, 'starts': RUN_STARTS, 'lens': [1, 4, 12], 'scale_every': 32})
                 else:
                     t.append({'f': 'c2s', 'nexp': nexp, 'off': off, 'e': e, 'starts': RUN_STARTS[::4], 'lens': [3], 'scale_every': 1000})
+    # scaling ladder: flux*c, ivar/c^2 for c in LADDER
+    if T:
+        for hi in range(16):
+            t.append({'f': 'sc1', 'n': 10, 'zeros': list(range(hi << 6, (hi + 1) << 6)), 'grids': ['same', 'half', 'wider'],
+                      'fi': [['sine', 'ramp', 'traditional']]})
+        t.append({'f': 'sc1', 'n': 14, 'zeros': [0, 8, 96, 150, 0x3f00, 16383 ^ 64], 'grids': ['same', 'half', 'wider'],
+                  'fi': [['sine', 'ramp', 'traditional'], ['const', 'const', 'mean'], ['lin', 'const', 'noconst']]})
+        for nexp in (2, 3):
+            t.append({'f': 'sc2', 'nexp': nexp, 'offs': ['zero', 'alt'], 'runs': [[], [[0, 40, 12]], [[1, 0, 3]]], 'grids': ['same', 'wider']})
+    else:
+        t.append({'f': 'sc1', 'n': 14, 'zeros': [0, 8, 96, 0x3f00, 16383 ^ 64], 'grids': ['same', 'half', 'wider'],
+                  'fi': [['sine', 'ramp', 'traditional'], ['const', 'const', 'mean']]})
+        t.append({'f': 'sc2', 'nexp': 2, 'offs': ['alt'], 'runs': [[[0, 40, 12]]], 'grids': ['same', 'wider']})
     # 2-D, exposures with different wavelength coverage (each end covered by one exposure only)
     if T:
         for nexp, D in ((2, 24), (2, 40), (2, 100), (3, 40)):
@@ -580,8 +677,11 @@ def tasks(tier):
     return t
 
 
-def _do(acc, case, nontrivial):
-    bad, label = CHECKS[case['f']](case)
+def _do(acc, case, nontrivial, cache=None):
+    bad, label = CHECKS[case['f']](case) if cache is None else CHECKS[case['f']](case, cache)
+    if label.startswith('skip:'):
+        acc.skip(label[5:])
+        return
     key = tuple(sorted((k, repr(v)) for k, v in case.items()))
     acc.case(key, nontrivial, ('ok:' + case['f'] + ':' + label) if not bad else 'bad:' + bad[0][0], sample=case)
     for sig, msg in bad:
@@ -648,6 +748,23 @@ def run_task(task):
                             continue
                     _do(acc, {'f': 'c2', 'nexp': task['nexp'], 'off': task['off'], 'runs': [first, second], 'flux': 'sine', 'grid': 'same',
                               'aes': 'traditional', 'scale': False}, True)
+    elif f == 'sc1':
+        cache = {}
+        for zeros in task['zeros']:
+            for g in task['grids']:
+                for fl, ivn, aes in task['fi']:
+                    for c in LADDER:
+                        case = {'f': 'sc', 'kind': '1d', 'n': task['n'], 'zeros': zeros, 'grid': g, 'flux': fl, 'ivar': ivn, 'aes': aes, 'c': c}
+                        _do(acc, case, _nt1(task['n'], zeros, g), cache)
+    elif f == 'sc2':
+        cache = {}
+        for off in task['offs']:
+            for runs in task['runs']:
+                for g in task['grids']:
+                    for c in LADDER:
+                        case = {'f': 'sc', 'kind': '2d', 'nexp': task['nexp'], 'off': off, 'runs': runs, 'grid': g, 'flux': 'sine',
+                                'ivar': 'ramp', 'aes': 'traditional', 'c': c}
+                        _do(acc, case, True, cache)
     elif f == 'c3s':
         runs_menu = [[]] if task['e'] == 0 else []          # the run-free stack once per configuration
         runs_menu += [[[task['e'], s0, ln]] for s0 in task['starts'] for ln in task['lens'] if s0 + ln <= NPIX2]
